@@ -11,6 +11,8 @@ import (
 
 	"github.com/robfig/soy"
 	"github.com/robfig/soy/data"
+	"github.com/robfig/soy/parse"
+	"github.com/robfig/soy/soyhtml"
 )
 
 // ExprCase is one observed execution of a single-print template.
@@ -36,6 +38,12 @@ type Obs struct {
 	CompileErr string `json:"compileErr,omitempty"`
 	Panicked   bool   `json:"panicked,omitempty"`
 	Hung       bool   `json:"hung,omitempty"`
+	// Standalone evaluation of the same source (soyhtml.EvalExpr), done for
+	// closed expressions: no variables, no $ij, no globals
+	EvalDone bool   `json:"evalDone,omitempty"`
+	EvalErr  bool   `json:"evalErr,omitempty"`
+	EvalOut  string `json:"evalOut,omitempty"`
+	EvalNil  bool   `json:"evalNil,omitempty"`
 }
 
 // RunExprCase compiles and renders the case with the real code.
@@ -69,6 +77,38 @@ func RunExprCase(c *ExprCase, explicitPrint bool) {
 	c.Obs = Obs{Err: res.Err != nil, Out: res.Out, ErrText: res.ErrS(), Panicked: res.Panicked}
 	if res.Err != nil {
 		c.Obs.Out = res.Out
+	}
+	if len(vars) == 0 && len(c.Env.Glob) == 0 && !usesIJ(c.E) && c.GlobText == "" {
+		standaloneEval(c)
+	}
+}
+
+func usesIJ(e E) bool {
+	b, _ := json.Marshal(e)
+	return strings.Contains(string(b), `"name":"ij"`) || strings.Contains(string(b), `"k":"global"`)
+}
+
+// standaloneEval evaluates the case's source with parse.Expr + soyhtml.EvalExpr,
+// the entry point for expressions outside templates (globals files use it).
+func standaloneEval(c *ExprCase) {
+	defer func() {
+		if r := recover(); r != nil {
+			c.Obs.EvalDone, c.Obs.EvalErr, c.Obs.EvalOut = true, true, fmt.Sprint("PANIC: ", r)
+		}
+	}()
+	node, err := parse.Expr(c.Src)
+	if err != nil {
+		c.Obs.EvalDone, c.Obs.EvalErr, c.Obs.EvalOut = true, true, "parse: "+err.Error()
+		return
+	}
+	v, err := soyhtml.EvalExpr(node)
+	c.Obs.EvalDone, c.Obs.EvalErr = true, err != nil
+	if err == nil {
+		if v == nil {
+			c.Obs.EvalNil = true
+		} else {
+			c.Obs.EvalOut = v.String()
+		}
 	}
 }
 
